@@ -19,7 +19,21 @@ import (
 	"verif/harness/internal/rec"
 )
 
-func TestMain(m *testing.M) { ev.Main(m, "C01") }
+func TestMain(m *testing.M) {
+	ev.Init("C01")
+	st := ev.G()
+	st.Level = "exploration"
+	st.Rule("rapid draws (schema of 1..8 states with arbitrary Require/Add/Remove/After, Auto, Multi; 0-2 handler bindings " +
+		"with veto scripts and nested mutations; history of 1..14 Add/Remove/Set/Toggle/AddErr/CanAdd/CanRemove steps). " +
+		"Sequential case is non-trivial iff it has >=1 accepted state-changing transition and >=1 of {+2 Multi re-activation, " +
+		"canceled tx, check tx, auto tx, handler-issued mutation}; concurrent case iff >=2 state-changing transitions ran while " +
+		"observers took >=10 snapshots. Distinct = distinct (schema, table, history) keys.")
+	st.Assume("handlers never fault (faults are C08); HandlerTimeout raised to 2 min so load cannot fake a timeout")
+	st.Assume("observer/mutator interleavings are those the Go scheduler produces, not all")
+	code := m.Run()
+	st.Flush(code)
+	os.Exit(code)
+}
 
 func genCase(t *rapid.T) rec.Case {
 	sc := gen.GenSchema(t, gen.SchemaOpts{})
